@@ -277,23 +277,23 @@ def run(ctx) -> None:
                     if isinstance(a, ast.Name) and a.id == evparam:
                         scopes.append((hfi.node, hp))
     for scope, evname in scopes:
-      for n in ast.walk(scope):
-        if isinstance(n, ast.Call) and isinstance(n.func, ast.Name) and n.func.id == "isinstance" and len(n.args) == 2:
-            first_ok = isinstance(n.args[0], ast.Name) and n.args[0].id == evname
-            second = n.args[1]
-            second_ok = False
-            if isinstance(second, ast.Call) and ast.unparse(second.func) == "tuple" and second.args and is_filter(second.args[0], scope):
-                second_ok = True
-            elif isinstance(second, ast.Name):
-                for g in ast.walk(scope):
-                    if isinstance(g, ast.comprehension) and isinstance(g.target, ast.Name) and g.target.id == second.id and is_filter(g.iter, scope):
-                        second_ok = True
-                    if isinstance(g, ast.For) and isinstance(g.target, ast.Name) and g.target.id == second.id and is_filter(g.iter, scope):
-                        second_ok = True
-            if first_ok and second_ok:
-                shape = True
-            else:
-                ok, msg = False, f"isinstance test with the wrong roles: {ast.unparse(n)} (expected isinstance(<event>, <member of the filter>))"
+        for n in ast.walk(scope):
+            if isinstance(n, ast.Call) and isinstance(n.func, ast.Name) and n.func.id == "isinstance" and len(n.args) == 2:
+                first_ok = isinstance(n.args[0], ast.Name) and n.args[0].id == evname
+                second = n.args[1]
+                second_ok = False
+                if isinstance(second, ast.Call) and ast.unparse(second.func) == "tuple" and second.args and is_filter(second.args[0], scope):
+                    second_ok = True
+                elif isinstance(second, ast.Name):
+                    for g in ast.walk(scope):
+                        if isinstance(g, ast.comprehension) and isinstance(g.target, ast.Name) and g.target.id == second.id and is_filter(g.iter, scope):
+                            second_ok = True
+                        if isinstance(g, ast.For) and isinstance(g.target, ast.Name) and g.target.id == second.id and is_filter(g.iter, scope):
+                            second_ok = True
+                if first_ok and second_ok:
+                    shape = True
+                else:
+                    ok, msg = False, f"isinstance test with the wrong roles: {ast.unparse(n)} (expected isinstance(<event>, <member of the filter>))"
     ctx.check(ok and shape and nput >= 1, RQ, "EventEmitter.queue_event", msg or "queue_event does not filter by isinstance over the filter's members", qfi.loc)
     ctx.count("functions", 4)
     ctx.assumptions += [
